@@ -64,14 +64,29 @@ def conn_for(results):
     return _CONNS[key]
 
 
-def run_impl(results, ops):
-    """results: list of (name, rows); ops: list of (op, arg)"""
+def run_impl(results, ops, flags=None):
+    """results: list of (name, rows); ops: list of (op, arg).  `hnext` is next() on an iterator that is kept across the
+    other calls (opened by `hopen` or by the first `hnext`); flags collects, per hnext, whether that iterator had
+    already signalled its end (it then stays ended, like any iter(callable, sentinel))"""
     conn = conn_for(results)
     cur = conn.cursor()
     outs = []
+    held, ended = None, False
     for op, arg in ops:
         try:
-            if op == 'execute':
+            if op == 'hopen' or (op == 'hnext' and held is None):
+                held, ended = iter(cur), False
+            if op == 'hopen':
+                outs.append(show_out([]) + state(cur))
+            elif op == 'hnext':
+                if flags is not None:
+                    flags.append(ended)
+                try:
+                    got = [next(held)]
+                except StopIteration:
+                    got, ended = [], True
+                outs.append(show_out(got) + state(cur))
+            elif op == 'execute':
                 cur.execute(stmt_for(arg))
                 outs.append('exec' + state(cur))
             elif op == 'fetchone':
@@ -128,7 +143,7 @@ def show_item(col, i, v):
     return 'T:' + proto.tyname(col.datatype) if v == hash(col.datatype) else 'T:?%r' % (v,)
 
 
-def line_for(results, ops):
+def line_for(results, ops, flags=()):
     rs = ' '.join('((desc ("x" "int") ("y" "str")) (rows %s))' %
                   ' '.join('(' + ' '.join(proto.enc_value(v) for v in row) + ')' for row in rows) for rows in results)
     body = []
@@ -138,6 +153,11 @@ def line_for(results, ops):
         elif op == 'colslice':
             j, a, b = arg
             body.append('(colslice %d %s %s)' % (j, 'nil' if a is None else a, 'nil' if b is None else b))
+        elif op == 'hopen':
+            body.append('(fetchmany 0)')        # nothing is delivered, nothing moves
+        elif op == 'hnext':
+            # a live iterator's next() is one step of a fresh iteration; an ended one delivers nothing and moves nothing
+            body.append('(fetchmany 0)' if flags.pop(0) else '(iter 1)')
         else:
             body.append(enc_op(op, arg or 0))
     return '(cursor (results %s) (ops %s))' % (rs, ' '.join(body))
@@ -178,7 +198,10 @@ def mkresults(sizes):
 
 
 def check_script(ctx, results, ops, name):
-    line = line_for(results, ops)
+    flags = []
+    if any(o in ('hnext', 'hopen') for o, _ in ops):
+        run_impl(results, ops, flags)
+    line = line_for(results, ops, flags)
     nontrivial = any(o == 'execute' for o, _ in ops) and any(o.startswith('fetch') or o.startswith('iter') for o, _ in ops)
     ok = ctx.check(name, [line], lambda: run_impl(results, ops), nontrivial=nontrivial,
                    payload={'results': results, 'ops': ops}, meta={'ops': ops})
@@ -320,6 +343,18 @@ def run(ctx):
                     check_script(ctx, results, prefix + ops, 'exhaustive')
                 if ctx.stop():
                     return
+    # an iterator kept open across the other calls reads the cursor as it is when next() is called
+    hops = ['hnext', 'hopen', 'fetchone', 'fetchmany2', 'fetchall', 'execute']
+    for size in (0, 1, 3, 4):
+        results = mkresults([size, 2])
+        for n in range(1, (5 if ctx.thorough() else 4) + 1):
+            for seq in itertools.product(hops, repeat=n):
+                if 'hnext' not in seq:
+                    continue
+                ops = [('execute', 0)] + [(o, 1 if o == 'execute' else None) for o in seq]
+                check_script(ctx, results, ops, 'held-iterator')
+            if ctx.stop():
+                return
     # description protocol
     results = mkresults([2])
     for j in (0, 1):
